@@ -130,6 +130,7 @@ pub fn run(args: &Args) {
                     let max = if size_bad { 1000 } else { *rng.pick(&[1usize, 2, 100, 1000]) };
                     let frame = if n <= 160 && k % 2 == 1 { 1 + rng.below(7) as usize } else if k % 4 == 0 { 1 + rng.below(1400) as usize } else { 0 };
                     sim.set_frame(frame);
+                    sim.set_chunked(if k % 5 == 3 { 1 + rng.below(3000) as usize } else { 0 });
                     res.case(fnv(format!("{:?}{}{}", keys, vol, max).as_bytes()), n > 0);
                     let got = match guarded(|| ()) { _ => if realtime { list_rt(site, vol, max).await } else { list_ar(site, &date).await } };
                     let (path, prefix, rmax) = last_list_req(&sim);
@@ -162,6 +163,8 @@ pub fn run(args: &Args) {
                     let cut = if status == 200 && len >= 1 && k % 6 == 5 { Some(rng.below(len as u64) as usize) } else { None };
                     sim.set_frame(frame);
                     sim.set_cut_body(cut);
+                    // every seventh download (and every fifth listing below) is served with Transfer-Encoding: chunked and no Content-Length
+                    sim.set_chunked(if k % 7 == 2 && cut.is_none() { 1 + rng.below(5000) as usize } else { 0 });
                     res.case(fnv(format!("{key}{status}{len}").as_bytes()), status == 200);
                     let mut get_panicked = false;
                     let (out, data_equal, lm_equal, id_equal) = if realtime {
